@@ -30,7 +30,26 @@ func main() {
 	arch := flag.String("goarch", "", "GOARCH for the analysis (default amd64)")
 	describe := flag.Bool("describe", false, "print the property table as JSON")
 	dumpFuncs := flag.Bool("dumpfuncs", false, "print the functions of the module (the reference list for helper expansion, known_funcs.txt)")
+	dumpRefs := flag.Bool("dumprefs", false, "print the declarations of the module (the reference list for rename normalisation, known_refs.txt)")
 	flag.Parse()
+	if *dumpRefs {
+		os.Setenv("FRUGALVET_NO_EXPAND", "1")
+		c, err := Load(*repo, *arch)
+		if err != nil {
+			fmt.Fprintln(os.Stderr, err)
+			os.Exit(2)
+		}
+		ds, _ := currentDecls(c.Pkgs)
+		fmt.Println("# declarations of the reference tree: kind (F func/method, V var, C const, T type, S struct field), package, name, type[, field index]")
+		for _, d := range ds {
+			if d.idx >= 0 {
+				fmt.Printf("%s\t%s\t%s\t%s\t%d\n", d.kind, d.pkg, d.name, d.typ, d.idx)
+			} else {
+				fmt.Printf("%s\t%s\t%s\t%s\n", d.kind, d.pkg, d.name, d.typ)
+			}
+		}
+		return
+	}
 	if *dumpFuncs {
 		os.Setenv("FRUGALVET_NO_EXPAND", "1")
 		c, err := Load(*repo, *arch)
